@@ -76,6 +76,12 @@ Script ==
     [] ScriptName = "nested_reused_dot" ->
          << <<"gen", 1, Up(1)>>, <<"gen", 3, Up(1)>>, <<"dlv", 1, 2>>,
             <<"gen", 2, [c |-> "up", k |-> 1, sub |-> [c |-> "add", m |-> 2]]>> >>
+    \* two actors update one key concurrently and each removes it with its own get() context; only the updates are
+    \* cross-delivered: each replica then holds the key witnessed by the OTHER actor's dot alone, and a merge of the two
+    \* finds nothing in common (the key must go)
+    [] ScriptName = "crossed_removes" ->
+         << <<"gen", 1, Up(1)>>, <<"gen", 2, Up(1)>>, <<"gen", 1, [c |-> "rm", k |-> 1]>>, <<"gen", 2, [c |-> "rm", k |-> 1]>>,
+            <<"dlv", 2, 1>>, <<"dlv", 1, 2>> >>
 ScriptInit == InitAfter(Script)
 
 \* JSON-friendly renderings: partial functions over Keys become total sequences of 0/1-element tuples
